@@ -136,6 +136,24 @@ def followup(stage, lines, model, checked, release, tier, rng):
                 L.append(i1); L.append(i2)
                 L.append("@impl %s::SecretKey::sign_reuse %s %s %s %s %s" % (K.API[s], sk, K.hx(m1), K.ctxs(c1), K.hx(m2), K.ctxs(c2)))
                 _st.setdefault("reuse", []).append((L[-1], i1, i2))
+        # calls that are refused half-way (a panic inside the operation: output buffer one byte short, public key one byte
+        # short) between calls that must go on answering as before - whatever a failed call leaves behind (a lock, a
+        # half-written scratch area) must not reach the next one
+        done = set()
+        for (s, msg, pk, r) in _st["sigreq"]:
+            if s in done:
+                continue
+            done.add(s)
+            sig = K.sig_of(checked[lines.index(r)]) if r in lines else None
+            if not sig:
+                continue
+            t = r.split()
+            kgl = [l for l in pool if l.startswith("sign::%s::keypair " % s)][0]
+            good = K.verify_raw(s, sig, msg, pk)
+            short_sig = "sign::%s::signature_cap -1 %s %s 0 -" % (s, t[1], t[2])
+            short_key = "sign::%s::keypair_cap -1 %s -" % (s, kgl.split()[1])
+            short_pk = K.verify_raw(s, sig, msg, pk[:-2])
+            seqs.append([r, short_sig, r, good, short_pk, good, kgl, short_key, kgl, r, short_sig, short_sig, r])
         kg = [l for l in pool if "::keypair" in l]
         sg = [l for l in pool if "::signature" in l]
         mixed = []
@@ -145,7 +163,7 @@ def followup(stage, lines, model, checked, release, tier, rng):
         for q in seqs:
             for l in q:
                 if l not in _st["iso"]:
-                    _st["iso"].add(l); L.append(l)
+                    _st["iso"].add(l); L.append(("@impl " + l) if "_cap " in l else l)      # (the model has no buffer sizes)
             L.append("@impl sequence " + " ;; ".join(q))
         # history: randomized operations in between, then the pool again in shuffled order (sequential process)
         sh = list(pool); rng.shuffle(sh)
@@ -178,7 +196,8 @@ def violated_all(lines, model, checked, release):
             reqs = [x.strip() for x in l[len("@impl sequence "):].split(";;")]
             for prof, ans in (("checked", checked), ("wrapping", release)):
                 got = [x.strip() for x in ans[i][3:].split(";;")] if ans[i].startswith("ok ") else []
-                iso = {lines[k].strip(): ans[k] for k in range(len(lines)) if not lines[k].startswith("@")}
+                iso = {lines[k].replace("@impl ", "").strip(): ans[k] for k in range(len(lines))
+                       if not lines[k].startswith("@") or (lines[k].startswith("@impl sign::") and "_cap " in lines[k])}
                 for n, (rq, g) in enumerate(zip(reqs, got)):
                     if rq in iso and iso[rq] != g:
                         out.append((i, "%s build: call %d of an ordered history on one thread (%s) returned %s, but %s when run on its own" %
